@@ -406,7 +406,11 @@ class Exec:
         ra = r.t.arr(r.z)
         j = self.bvar("j")
         self.assume(st, z3.ForAll([j], z3.Implies(z3.And(0 <= j, j < la), ra[j] == aa[j]), patterns=[aa[j]]))
-        self.assume(st, z3.ForAll([j], z3.Implies(z3.And(0 <= j, j < lb), ra[la + j] == ab[j]), patterns=[ab[j]]))
+        # (no such axiom for the right operand: its index arithmetic la + j / j - la feeds a matching loop with
+        # the defining axiom; a right operand that is a short literal gets ground facts instead)
+        if z3.is_int_value(z3.simplify(lb)) and z3.simplify(lb).as_long() <= 4:
+            for k in range(z3.simplify(lb).as_long()):
+                self.assume(st, ra[la + k] == ab[k])
         return r
 
     def clamp_index(self, i, ln, literal_nonneg=False):
@@ -531,6 +535,11 @@ class Exec:
 
     def ev_List(self, st, node):
         items = [self.ev(st, e) for e in node.elts]
+        if len(items) >= 2 and all(not isinstance(i.t, TPy) for i in items) and \
+                len({i.t.key() for i in items}) > 1 and not ({i.t for i in items} <= {INT, REAL, BOOL}):
+            # a python list used as a fixed record, e.g. [name, sequence]
+            t = TTuple([i.t for i in items])
+            return SV(t, t.mk([i.z for i in items]))
         elem = None
         if not items:
             elem = getattr(st, "_expect_elem", None)
@@ -916,6 +925,39 @@ class Exec:
                 self.assign_to(st, tree.targets[0], val, tree)
             finally:
                 st.spec = spec_was
+        elif text.startswith("mark "):
+            # mark NAME(x, y): makes the marker term NAME(x, y) available to e-matching.  Markers occur ONLY in
+            # triggers of quantified facts (never in a formula), so assuming the marker atom is conservative.
+            call = ast.parse(text[5:].strip(), mode="eval").body
+            s2 = st.fork()
+            s2.spec = True
+            args = [self.to_int(self.ev(s2, a)) for a in call.args]
+            f = self.uf("marker_" + call.func.id, *([z3.IntSort()] * len(args) + [z3.BoolSort()]))
+            st.hyps.append(f(*args))
+        elif text.startswith("defseq "):
+            # ghost sequence defined point-wise:  defseq NAME[p : LEN] = EXPR(p)
+            import re as _re
+            m = _re.match(r"defseq\s+(\w+)\[(\w+)\s*:\s*(.+?)\]\s*=\s*(.+)$", text, _re.S)
+            if not m:
+                raise Unsupported("defseq syntax: %r" % text)
+            name, var, ln_txt, expr = m.groups()
+            s2 = st.fork()
+            s2.spec = True
+            s2.hyps = st.hyps
+            ln = self.to_int(self.ev(s2, ast.parse(ln_txt, mode="eval").body))
+            j = self.bvar(var)
+            s2.env[var] = SV(INT, j)
+            self.push_binder(s2, [j], z3.And(0 <= j, j < ln))
+            try:
+                val = self.ev(s2, ast.parse(expr, mode="eval").body)
+            finally:
+                self.pop_binder(s2)
+            t = TSeq(val.t, "list")
+            r = self.fresh(name, t)
+            st.hyps.append(t.len(r.z) == ln)
+            st.hyps.append(z3.ForAll([j], z3.Implies(z3.And(0 <= j, j < ln), t.arr(r.z)[j] == val.z),
+                                     patterns=[t.arr(r.z)[j]]))
+            st.env[name] = r
         elif text.startswith("ghost "):
             # ghost declaration:  ghost name: type   (an arbitrary initial value)
             name, ty = text[6:].split(":", 1)
@@ -1331,7 +1373,9 @@ class Exec:
 
     def st_While(self, st, s):
         o, lp = self.loop_spec(s)
+        self._cur_loop_ghost = lp.ghost_pre + lp.ghost_post
         mods = self.modified_in(s.body, st)
+        self._cur_loop_ghost = []
         self.check_invariant(st, o, lp, "init", s)
         outs = []
         # preserve
@@ -1384,7 +1428,9 @@ class Exec:
         outs0 = self.split_exc(st)
         n, getter = it
         kname = lp.counter or ("_k%d" % o)
+        self._cur_loop_ghost = lp.ghost_pre + lp.ghost_post
         mods = [m for m in self.modified_in(s.body, st) if m != kname]
+        self._cur_loop_ghost = []
         tnames = assigned_names([ast.Assign(targets=[s.target], value=ast.Constant(0))])
 
         def bind(state, k):
@@ -1481,7 +1527,29 @@ class Exec:
                     names.append(node.args[0].id)
             if isinstance(node, (ast.Yield, ast.YieldFrom)):
                 names.append("yielded")
-        names += [g for g in self.c.locals if g.startswith("ghost_")]
+        # ghost variables assigned by ghost statements attached to statements of this body
+        import re as _re
+
+        def ghost_targets(texts):
+            outn = []
+            for tx in texts:
+                tx = tx.strip()
+                m = _re.match(r"(?:let|havoc|ghost)\s+(\w+)", tx) or _re.match(r"(?:set|defseq)\s+(\w+)\s*\[", tx)
+                if m:
+                    outn.append(m.group(1))
+            return outn
+        for node in _walk_in_order(list(body)):
+            pre = src_prefix(node)
+            for g in self.c.ghost_at:
+                anchor = g.get("before") or g.get("after")
+                if anchor and pre.startswith(anchor):
+                    names += ghost_targets(g["do"])
+            if isinstance(node, (ast.For, ast.While)):
+                o = self.loop_ord.get(id(node))
+                lp2 = self.c.loops.get(o)
+                if lp2 is not None:
+                    names += ghost_targets(lp2.ghost_pre + lp2.ghost_post)
+        names += ghost_targets(getattr(self, "_cur_loop_ghost", []))
         out = []
         for n in names:
             if n in st.env and n not in out:
